@@ -35,6 +35,9 @@ def schedule(rng, length=None):
         if c < 0.16:
             ops.append('tick %s %s %s %s' % ('0' if rng.random() < 0.9 else '-', '1' if rng.random() < 0.9 else '-', '0' if rng.random() < 0.9 else '-',
                                               rng.choice(['wired', 'wired', 'nolast', 'none'])))
+            if rng.random() < 0.2:
+                # the clock moves on while the tick runs (a blocking transmit, a slow log sink): right after its first / second reading
+                ops[-1] = ops[-1].replace('tick ', 'tickj ', 1) + ' %d %d' % (rng.choice([1, 2]), rng.choice([1, 5, 40, 299, 300, 1000, 1001]))
         elif c < 0.34:
             d = rng.choice([0, 1, 6, 99, 100, 101, 299, 300, 301, 999, 1000, 1001, 1999, 2000, 4999, 5000, 5001, 29999, 30000, 30001, 59999, 60000, 60001,
                             61000, 120000, rng.randint(0, 3000), rng.randint(0, 90000)])
@@ -108,7 +111,7 @@ def _remap(op):
         w[2] = '3'
     elif w[0] == 'band':
         w[2] = '4'
-    elif w[0] == 'tick':
+    elif w[0] in ('tick', 'tickj'):
         w[1] = '3' if w[1] != '-' else '-'
         w[2] = '4' if w[2] != '-' else '-'
         w[3] = '1' if w[3] != '-' else '-'
@@ -131,7 +134,7 @@ def schedule2(rng):
         src = a if (a and (not b or rng.random() < 0.5)) else b
         o = src.pop(0)
         out.append(o)
-        if paired and o.startswith('tick '):
+        if paired and o.startswith(('tick ', 'tickj ')):
             # the daemon's timer serves every interface in turn, at the same clock reading
             other = 'tick 3 4 1 wired' if src is a else 'tick 0 1 0 wired'
             out.append(other)
